@@ -1323,6 +1323,14 @@ class sp_sptenrand(Contract):
         m = T.tz(subs.shape[0])
         P = N.PRODR(srow)
         c = a["__case__"]
+        ca = S.body_ghosts.get("callargs:from_function")
+        if ca:
+            # what is asked of the generator: the count itself, the fraction (< 1), or every cell (density 1)
+            asked = T.tz(T.as_real(ca[-1]["nonzeros"]))
+            want = {"nonzeros": lambda: z3.ToReal(T.tz(a["nonzeros"])), "density=1": lambda: z3.ToReal(P),
+                    "density<1": lambda: z3.If(a["density"] < 1, a["density"], z3.ToReal(P))}.get(c)
+            if want is not None:
+                yield "request-passed-to-the-generator", asked == want()
         if c == "nonzeros":
             yield "at-most-the-requested-count", m <= a["nonzeros"]
         elif c == "density=1":
